@@ -18,9 +18,9 @@ func (p *c10) Setup(env *fw.Env) error {
 	p.Env = env
 	xgocWarm(env)
 	p.N = env.Pick(40, 1500)
-	p.RuleS = "each case is an XGo program with 6 generated overload sets of 2-4 candidates with pairwise different parameter tuples (1-2 parameters over int, string, float64, bool, []int, map[string]int, *foo, foo, byte, int64, error, func()), written as inline function literals, as named functions (`func f = (a; b)`), as a mix of both, as methods (`func (T).m = ((T).a; (T).b)`) or as an operator set mixing methods and a function (`func (T).* = (…)`), the candidates listed in a random order. Every candidate prints its own tag; for every candidate the program makes a call whose arguments are variables of exactly that candidate's parameter types (plus calls with untyped literals that only one candidate accepts). The harness knows which candidate each call must reach (reference model: exact type match) and compares the printed tags per tagged line."
+	p.RuleS = "each case is an XGo program with 6 generated overload sets of 2-4 (one set in six: 11-13) candidates with pairwise different parameter tuples (1-2 parameters over int, string, float64, bool, []int, map[string]int, *foo, foo, byte, int64, error, func()), written as inline function literals, as named functions (`func f = (a; b)`), as a mix of both, as methods (`func (T).m = ((T).a; (T).b)`) or as an operator set mixing methods and a function (`func (T).* = (…)`), the candidates listed in a random order. Every candidate prints its own tag; for every candidate the program makes a call whose arguments are variables of exactly that candidate's parameter types (plus calls with untyped literals that only one candidate accepts). The harness knows which candidate each call must reach (reference model: exact type match) and compares the printed tags per tagged line."
 	p.Assume = []string{"arguments are typed variables or literals only one candidate accepts, so that 'the candidate whose parameters accept the arguments' is unique", "the operator form mixes methods and one function as documented; style mixed-literals-and-named mixes inline literals and named functions in one declaration (as the repository's TestOverloadFunc3 does)"}
-	p.Floor = map[string]int{"#evaluations": p.N * 9 / 10, "#nontrivial": p.N * 8 / 10, "programs-executed": p.N * 8 / 10, "stdout-lines-compared": p.N * 12, "style:inline-literals": p.N / 2, "style:named-functions": p.N / 2, "style:methods": p.N / 2, "style:operator": p.N / 2, "style:mixed-literals-and-named": p.N / 2, "candidates:4": p.N / 2, "order:not-declaration-order": p.N * 2}
+	p.Floor = map[string]int{"#evaluations": p.N * 9 / 10, "#nontrivial": p.N * 8 / 10, "programs-executed": p.N * 8 / 10, "stdout-lines-compared": p.N * 12, "style:inline-literals": p.N / 2, "style:named-functions": p.N / 2, "style:methods": p.N / 2, "style:operator": p.N / 2, "style:mixed-literals-and-named": p.N / 2, "candidates:4": p.N / 3, "candidates:more-than-ten": p.N / 3, "order:not-declaration-order": p.N * 2}
 	return nil
 }
 
@@ -71,6 +71,10 @@ func (p *c10) build(c fw.Case, r *fw.Rec) pairBuild {
 			continue
 		}
 		nc := rnd.Range(2, 4)
+		if rnd.Chance(1, 6) {
+			nc = rnd.Range(11, 13) // more candidates than decimal digits (the generated names use one character per index)
+			r.Cover("candidates:more-than-ten")
+		}
 		r.Cover(fmt.Sprintf("candidates:%d", nc))
 		// distinct parameter tuples
 		var tuples [][]c10ty
